@@ -1,6 +1,6 @@
 (* C16: any call sequence equals the composition of its steps. *)
 From Coq Require Import ZArith List Bool String.
-From Verif Require Import BGate PyVal Ast State Unroll Corr Spec Transforms TransformProofs ModuleSpec ModuleProofs Depth DepthModel FixProofs ValidProofs.
+From Verif Require Import BGate PyVal Ast State Unroll Corr Spec Transforms TransformProofs ModuleSpec ModuleProofs Depth DepthModel FixProofs ValidProofs LoopProofs BroadcastProofs GateDefProofs.
 Import ListNotations.
 Open Scope Z_scope.
 
@@ -75,3 +75,22 @@ Example C16_sequence_example :
   apply_tsteps ts p = [SQubitDecl "q" (Some (ELit (VInt 2))); SClassicalDecl (TBit (Some (ELit (VInt 1)))) "c" None;
                        SGate [] "h" [] [q 1]; SGate [] "cx" [] [q 1; q 0]]%string.
 Proof. vm_compute. repeat split; reflexivity. Qed.
+
+(* From the SOURCE program: unroll() of any program inside the whole-program judgement (gate definitions and calls, modifiers,
+   loops, whole-register operations, Props/C01.v) gives the flat program q, and q transformed by ANY sequence of the five
+   transformations (none of which empties an if-block) is again a valid program that validate() accepts and unroll() leaves as
+   it is -- the language-level theorem composed with the module-level one. *)
+Theorem C16_unrolled_then_transformed_programs_stay_valid fuel ts p q evs :
+  gexpand env0 [] p = Some (q, evs) -> (ldepth p + 1 < fuel)%nat -> (gate_nesting < fuel)%nat ->
+  no_emptied_if ts q = true -> (ldepth (apply_tsteps ts q) < fuel)%nat ->
+  (exists o, run_visit false false [] fuel p = Ok o /\ o_stmts o = q) /\
+  (exists o, run_visit false true [] fuel (apply_tsteps ts q) = Ok o /\
+             num_qubits (o_state o) = total_qubits (apply_tsteps ts q) /\
+             forall r, dof (o_state o) r = depth_after rsrc_eqb (evs_of (apply_tsteps ts q)) r) /\
+  (exists o, run_visit false false [] fuel (apply_tsteps ts q) = Ok o /\ o_stmts o = apply_tsteps ts q).
+Proof.
+  intros Hx Hf HN Hn Hd.
+  destruct (programs_with_gate_definitions_unroll_to_their_expansion fuel p q evs Hx Hf HN) as (o & E & Ho & W & _).
+  split; [exists o; split; assumption|]. exact (any_sequence_result_is_valid_and_stable fuel ts q W Hn Hd).
+Qed.
+Print Assumptions C16_unrolled_then_transformed_programs_stay_valid.
